@@ -320,6 +320,24 @@ func (w *W) builtin(f *frame, b *ssa.Builtin, c *ssa.CallCommon, args []Value, k
 		return p, g
 	case "copy":
 		return w.copyBuiltin(f, c, args[0].(*Slice), args[1], key, g, pos)
+	case "clear":
+		sl, ok := args[0].(*Slice)
+		if !ok {
+			panic("cannot encode: clear of a map at " + w.pos(pos))
+		}
+		elem := c.Args[0].Type().Underlying().(*types.Slice).Elem()
+		mx, okm := maxConst(sl.len)
+		if !okm {
+			panic("cannot encode: clear with non-enumerable length at " + w.pos(pos))
+		}
+		_, ng := w.op(t, key, g, opSpec{pos: pos, kind: "clear", effect: func(exec *Term) Value {
+			for i := 0; i < int(mx); i++ {
+				ig := And(exec, Slt(BV(64, uint64(i)), sl.len))
+				w.storePtr(ig, w.elemPtr(sl.arr, Add(sl.off, BV(64, uint64(i))), 0), elem, zero(elem))
+			}
+			return nil
+		}})
+		return nil, ng
 	}
 	panic("cannot encode: builtin " + b.Name() + " at " + w.pos(pos))
 }
